@@ -201,6 +201,7 @@ def run(ctx):
                                                                            " through %s" % acc[2] if acc[2] else ""),
                           A.site(), how="return term %s" % G.show(rt), why="return term %s" % G.show(rt))
     ctx.floor("L1", "non-generic DST implementors of MaybeDynSized (both crates)", n_dst, 10)
+    stride_agreement(ctx, F)
     for (crate, ty), row in oracle_by_ty.items():
         if row["var"] is not None and (crate, ty) not in seen_oracle:
             ctx.fail("ANCHOR", ty, "specified variable-length kind %s is modelled by a DST implementing MaybeDynSized" % ty, "", "not found")
@@ -294,6 +295,38 @@ def only_mbi_kinds(o):
 
 def only_string_kinds(o):
     return any(k in o.key for k in _STRING_KINDS)
+
+
+def stride_agreement(ctx, F):
+    """L6: the memory map stores its own entry stride (`entry_size`, offset 8); the areas are exposed as a slice of the crate's
+    24-byte `MemoryArea`, so element i of the slice is the entry at 16 + i * entry_size - and the element count of L2 is the
+    specified (size - 16) / entry_size - only if entry_size == size_of::<MemoryArea>().  That equality must be a fact wherever
+    the accessor returns (another stride is rejected by a controlled panic)."""
+    ty = "multiboot2::memory_map::MemoryMapTag"
+    a = F.adts.get(ty)
+    fn = F.find(impl_self=ty, name="memory_areas", impl_trait=None)
+    if a is None or len(fn) != 1:
+        ctx.fail("ANCHOR", "MemoryMapTag::memory_areas", "accessor MemoryMapTag::memory_areas exists", "", "missing")
+        return
+    fld = [f for f in a["fields"] if f["off"] == 8 and f["size"] == 4]
+    tail = a.get("tail") or {}
+    A = an.of(F, fn[0])
+    if len(fld) != 1 or not tail.get("elem_size"):
+        ctx.fail("L6", "MemoryMapTag:stride", "MemoryMapTag has a u32 at offset 8 (entry_size) and a sized tail element", A.site(), "layout %s" % a["fields"])
+        return
+    f = fld[0]
+    want = tail["elem_size"]
+    rt, facts = A.ret()
+    if facts is None:
+        ctx.fail("L6", "MemoryMapTag:stride", "memory_areas() has a single normal return", A.site(), "UNRECOGNISED: several returns")
+        return
+    at = ("zext", ("fld", ("deref", ("arg", 1, "&" + ty)), f["i"], f["name"], "u32"), "u32", "usize")
+    j = G.entails(facts, ("cmp", "Eq", at, ("c", want))) or G.entails(facts, ("cmp", "Eq", at[1], ("c", want)))
+    ctx.check(j is not None, "L6", "MemoryMapTag:stride",
+              "memory_areas() returns only under the fact entry_size == size_of::<MemoryArea>() = %d (the stored stride is the slice's stride)" % want,
+              A.site(), how="dominating edge fact: %s" % "; ".join(G.show(facts[i]) for i in (j[1] if j else [])),
+              why="no guard with a diverging failing edge establishes entry_size == %d at the return (facts: %s): with another stored stride "
+                  "element i of the slice is not the i-th entry" % (want, [G.show(x) for x in facts]))
 
 
 def palette_extent(ctx, F):
